@@ -1,8 +1,8 @@
 #!/bin/bash
 # usage: tools/try_seed.sh <patch.diff> <Cxx> [quick|thorough]
-# Applies a seeded change to /repo, builds the harness + binary against it, reverts /repo at once
-# (all under /tmp/verif-repo.lock so that no other locked build sees the seeded sources), then runs the
-# check with the seeded binaries. Works from /verif or from a snapshot copy (own build directories).
+# Applies a seeded change to /repo, builds the harness + binary against it, reverts /repo at once, then runs the
+# check with the seeded binaries - all under /tmp/verif-repo.lock, so that no other locked build sees the seeded
+# sources and nobody replaces the seeded binaries while the check (which spawns workers / servers) still runs.
 set -u
 ROOT="$(cd "$(dirname "$0")/.." && pwd)"
 PATCH="$(realpath "$1")"; ID="$2"; TIER="${3:-quick}"
@@ -14,10 +14,10 @@ cd /repo || exit 2
   git apply "$PATCH" || { echo "patch does not apply" >&2; exit 2; }
   ( cd "$ROOT" && ./setup.sh > "/tmp/seedbuild-$TAG.log" 2>&1 ); B=$?
   git -C /repo reset -q --hard HEAD ; git -C /repo clean -fdq -e target
-  exit $B
-) 9>/tmp/verif-repo.lock || { echo "build with the seeded change failed"; tail -20 "/tmp/seedbuild-$TAG.log"; exit 2; }
-rm -f "/tmp/seedbuild-$TAG.log"
-( cd "$ROOT" && VERIF_SKIP_BUILD=1 ./check "$ID" "$TIER" > "/tmp/seedrun-$TAG.log" 2>&1 ); RC=$?
-echo "exit=$RC"; grep -E '^(VIOLATION|MACHINERY|  signature|\[C)' "/tmp/seedrun-$TAG.log" | head -12
-cp "/tmp/seedrun-$TAG.log" "/tmp/seedrun-$ID.log"; rm -f "/tmp/seedrun-$TAG.log"
+  [ $B -eq 0 ] || { echo "build with the seeded change failed"; tail -20 "/tmp/seedbuild-$TAG.log"; exit 2; }
+  rm -f "/tmp/seedbuild-$TAG.log"
+  ( cd "$ROOT" && VERIF_SKIP_BUILD=1 ./check "$ID" "$TIER" > "/tmp/seedrun-$TAG.log" 2>&1 ); RC=$?
+  echo "exit=$RC"; grep -E '^(VIOLATION|MACHINERY|  signature|\[C)' "/tmp/seedrun-$TAG.log" | head -12
+  cp "/tmp/seedrun-$TAG.log" "/tmp/seedrun-$ID.log"; rm -f "/tmp/seedrun-$TAG.log"
+) 9>/tmp/verif-repo.lock
 exit 0
